@@ -63,6 +63,28 @@ def _job(args):
                                    'detail': '%s() on the queuing sink is not exactly the wrapped sink\'s %s(): %s -> %r' % (w, w, kinds, leaf),
                                    'scenario': {'kind': 'queue-stats'} if w == 'stats' else None})
         res['findings'] += static
+        if pid == 'C15' and cap_mode == 'bounded' and handler:
+            # a thread sampling queued() concurrently with one producer and the worker (counters are now observable
+            # mid-flight, so their updates are separate steps)
+            xs = qm.Extraction(prog, cap_mode, handler, timeout_ms=60000)
+            for w in ('emit', 'clone', 'drop', 'worker', 'queued'):
+                xs.run_program(w)
+            ps = qm.Product(xs, 2, 12, 0, 1, timeout_ms=timeout_ms, sampler=True)
+            ps.encode()
+            vs = ps.violations()
+            r0, m0, dt0 = ps.check(z3.Or(*[ps.states[t]['ended:S0'] for t in range(13)]))
+            res['queries'].append({'q': 'twin:sampler-runs', 'res': r0, 's': round(dt0, 2)})
+            if r0 != 'sat':
+                res['error'] = 'vacuity: the sampler never completes in the sampler model'
+            rs, ms, dts = ps.check(z3.Or(*vs.values()))
+            res['queries'].append({'q': 'sampler-clauses', 'res': rs, 's': round(dts, 2)})
+            if rs == 'unknown':
+                res['error'] = 'solver unknown on the sampler query'
+            if rs == 'sat':
+                steps, capv = ps.trace_of(ms)
+                which = [c for (p_, c), f in vs.items() if z3.is_true(ms.eval(f, model_completion=True))]
+                res['findings'].append({'prop': 'C15', 'clause': ','.join(which), 'static': False, 'scenario': {'kind': 'queue-sampler'},
+                                        'detail': 'schedule: ' + ' | '.join('%s:%s' % (s_['thread'], s_['op']) for s_ in steps)})
         pr = qm.Product(x, A, D, P, Q, timeout_ms=timeout_ms)
         pr.encode()
         res['edges'] = len(pr.E)
